@@ -199,6 +199,7 @@ func TestVerifC08Deliver(t *testing.T) {
 	defer vstats.Flush()
 	base := t.TempDir()
 	rapid.Check(t, func(t *rapid.T) {
+		defer vuProcessZone(t)()
 		c08Seq++
 		dir := vuFreshDir(base)
 		defer os.RemoveAll(dir)
